@@ -19,9 +19,12 @@ CbOK(pre, x) ==
   /\ SeqToSet(x.cb) \subseteq PairsOf(pre.list)
   /\ Cardinality(SeqToSet(x.cb)) = Len(x.cb)
   /\ \A c \in SeqToSet(x.cb) : ~Has(x.st.list, c[1]) \/ ValOf(x.st.list, c[1]) # c[2] \/ TRUE
+\* refinement into the integer abstraction RawLRULen (n <= cap proved by Apalache for every capacity and resize)
+RL == INSTANCE RawLRULen WITH n <- Len(st.list), c <- st.cap
 StepOK == LET o == hist'[Len(hist')]
               x == RApply(o, st)
-          IN /\ GenericStepOK(V(st), o @@ [ret |-> x.ret], V(x.st), RReadOnlyOps, FALSE)
+          IN /\ Assert(RL!NextRel(Len(st.list), st.cap, Len(x.st.list), x.st.cap), <<"step is not a step of RawLRULen", st, o>>)
+             /\ GenericStepOK(V(st), o @@ [ret |-> x.ret], V(x.st), RReadOnlyOps, FALSE)
              /\ Assert(CbOK(st, x), <<"C15 fails on spec step", st, o>>)
 EmitState == IF Emit THEN PrintT(<<"STATE", ToJson([path |-> hist])>>) ELSE TRUE
 EmitOps == IF Emit THEN PrintT(<<"OPS", ToJson([ops |-> Ops])>>) ELSE TRUE
